@@ -48,7 +48,7 @@ ASSUMPTIONS = [
 
 def plan(tier: str) -> dict:
     if tier == "quick":
-        return {"runs": 420, "wall_s": 170, "task_timeout": 300}
+        return {"runs": 1400, "wall_s": 170, "task_timeout": 300}
     return {"runs": 9000, "wall_s": 1700, "task_timeout": 900}
 
 
@@ -87,6 +87,8 @@ def run_one(tape: Tape, tier: str, opts: dict) -> dict:
             _, pol = C.clock_policy(tape, cfg["autosave_dt"], tape.choice(["every", "period"], "rclock"))
         out, cnt = K.run_case(world, case, seeds, autosave=resumed, policy=pol, record=resumed)
         evals = 1
+        if K.numerical_refusal(out):
+            return {"violations": [], "cases": [], "evals": 1, "skipped": "krylov-refused-the-step-size", "digest": world.log.digest(), "scenario": desc, "sim_ns": 0.0}
         if out.error is not None:
             V.append({"clause": "C14.run-raised", "site": out.error_site or "?", "msg": f"run() raised {out.error!r} on inputs pulser accepts :: {desc}"})
         else:
